@@ -126,7 +126,7 @@ def check_group(ctx, csg, psgs, batch):
     return name
 
 
-def check_distinct(ctx, groups):
+def check_distinct(ctx, groups, extra_pairs=()):
     """injectivity: different (centre, multiset) => different names, unequal, different dict entries"""
     byname = {}
     for csg, psgs in groups:
@@ -139,6 +139,28 @@ def check_distinct(ctx, groups):
                           expected='different names', observed=nm)
         byname[nm] = k
     ctx.count('distinct_names', len(byname))
+    # equality of group OBJECTS: equal exactly when centre and multiset are; tried on near misses (one peripheral dropped,
+    # one doubled, same set with other multiplicities, another centre) and on random pairs
+    rng = ctx.rng
+    keys = [(c, tuple(sorted(p))) for c, p in groups if wf(c, p)]
+    pairs = list(extra_pairs)
+    for c, p in keys[:ctx.n(400, 4000)]:
+        near = []
+        if p:
+            near += [(c, p[:-1]), (c, p[1:]), (c, p + (p[0],)), (c, tuple(sorted(set(p)))), (c, tuple(sorted(set(p))) + (p[-1],) * 2)]
+        near += [(c + 'x', p), (c, p)]
+        pairs += [((c, p), (c2, tuple(sorted(p2)))) for c2, p2 in near if wf(c2, list(p2))]
+    pairs += [(rng.choice(keys), rng.choice(keys)) for _ in range(ctx.n(500, 5000))] if keys else []
+    for k1, k2 in pairs:
+        a, b = impl_group(k1[0], list(k1[1])), impl_group(k2[0], list(reversed(k2[1])))
+        same = k1 == k2
+        ctx.count('object_equalities')
+        got = (a == b, b == a, not (a != b), a in [b], (b in {a: 1}))
+        if any(x != same for x in got):
+            ctx.violation('two group objects compare %s although their centre and multiset of peripherals are %s'
+                          % ('equal' if not same else 'unequal', 'the same' if same else 'different'),
+                          {'a': [k1[0], list(k1[1])], 'b': [k2[0], list(k2[1])]}, same, list(got))
+            break
 
 
 def malformed_texts(ctx, n):
@@ -326,6 +348,25 @@ def synthetic_library_check(ctx):
             ctx.violation('a library entry written in a non-canonical spelling is not indexed by the group it denotes',
                           {'written': text, 'csg': csg, 'psgs': list(ps)}, 'found via constructor / parse / canonical string / other spelling',
                           [bool(e) for e in entries])
+    # groups merged in AFTER the library was already looked up by name: a group and its name still index the same entry
+    d2 = os.path.join(ctx.scratch, 'synthlib2')
+    os.makedirs(d2, exist_ok=True)
+    shutil.copy(os.path.join(d, 'scheme.yaml'), os.path.join(d2, 'scheme.yaml'))
+    later = [('C[t]', ('C', 'H')), ('C[t]', ('C[t]', 'C', 'C')), ('S', ('C', 'C', 'O'))]
+    with open(os.path.join(d2, 'library.yaml'), 'w') as f:
+        f.write('groups:\n')
+        for i, (csg, ps) in enumerate(later):
+            f.write("    '%s':\n        'thermochem':\n            T_ref: 298.15 K\n            H_ref: %d.25 kcal/mol\n"
+                    % (spellings(rng, csg, list(ps), 1)[0], 100 + i))
+    lib.Update(GroupLibrary.Load(os.path.join(d2, 'library.yaml')))
+    for csg, ps in later:
+        ctx.count('synthetic_library_entries_after_update')
+        g = impl_group(csg, list(ps))
+        entries = [lib[Group(lib.scheme, csg, list(reversed(ps)))], lib[g.name], lib[Group.parse(lib.scheme, g.name)]]
+        if not all(e and e is entries[0] for e in entries) or (g in lib) != (g.name in lib):
+            ctx.violation('a group merged into a library that was already looked up by name is not indexed by its name',
+                          {'csg': csg, 'psgs': list(ps), 'history': 'lookups by name, Update(other library), lookup'},
+                          'found via constructor / canonical string / parse', [bool(e) for e in entries])
 
 
 def replay(ctx, rec, record=False):
@@ -338,7 +379,8 @@ def replay(ctx, rec, record=False):
         if r.get('err', '').startswith('internal'):
             ctx.violation('Group.parse escapes with an unrelated exception', inp, 'group or GroupSyntaxError', r)
     elif 'a' in inp and 'b' in inp:
-        check_distinct(ctx, [(inp['a'][0], tuple(inp['a'][1])), (inp['b'][0], tuple(inp['b'][1]))])
+        ka, kb = (inp['a'][0], tuple(sorted(inp['a'][1]))), (inp['b'][0], tuple(sorted(inp['b'][1])))
+        check_distinct(ctx, [ka, kb], extra_pairs=[(ka, kb)])
     else:
         check_group(ctx, inp['csg'], inp['psgs'], batch)
     return len(ctx.violations) == before
